@@ -1,6 +1,7 @@
 (* C17 — proofs about the filenames model (Ext/Filenames.v). *)
 From Coq Require Import List Ascii Bool Arith Lia Sorting.Sorted Sorting.Permutation.
-From SZ Require Import Ext.TextFile Ext.Filenames.
+From SZ Require Import Ext.TextFile.
+From SZ Require Import Ext.Filenames.
 Import ListNotations.
 
 Definition name_lt (a b : name) : Prop := name_ltb a b = true.
